@@ -1042,7 +1042,20 @@ func c20QueueCap(c *Ctx, w *World) {
 				ok = false
 			}
 		}
-		c.Check(fname(fn)+"#demotion-then-queue-cap", demotes[0].Pos(), ok, ifelse(ok, "every path after a demotion passes a cap of the account's queue", "transactions taken out of pending are put into the account's queue and the function returns without capping the queue at AccountQueue (nor asking for a promotion run, which would): the per-account queue limit is exceeded until some later promotion of that account"))
+		// a loop body split off into a method of its own is the same site as its only caller
+		keyFn := fn
+		callers := map[*ssa.Function]bool{}
+		for _, site := range w.Callers(fn) {
+			callers[site.Parent()] = true
+		}
+		if len(callers) == 1 {
+			for cf := range callers {
+				if cf.Pkg == fn.Pkg && onlyCalledFrom(w, fn, cf) && len(callsTo(cf, enq)) == 0 && (cf == w.Fn("core", "TxPool", "demoteUnexecutables") || cf == w.Fn("core", "TxPool", "removeTx")) {
+					keyFn = cf
+				}
+			}
+		}
+		c.Check(fname(keyFn)+"#demotion-then-queue-cap", demotes[0].Pos(), ok, ifelse(ok, "every path after a demotion passes a cap of the account's queue", "transactions taken out of pending are put into the account's queue and the function returns without capping the queue at AccountQueue (nor asking for a promotion run, which would): the per-account queue limit is exceeded until some later promotion of that account"))
 	}
 	if n == 0 {
 		c.Undecided("core#demoting-functions", token.NoPos, "no function that hands transactions from a pending list to enqueueTx found (demoteUnexecutables and removeTx are expected)")
